@@ -7,7 +7,7 @@ RULE = ('e2e stage: parse_to_xml vs the extracted Gallina pipeline model on docu
         'nesting depth, with/without headings and subheadings, 7 roots, 5 FRBR URIs (two with a language other than eng and an expression date), prefixes). Oracle on the implementation: component = '
         '<parent path>/<keyword>_<n> numbered per keyword among siblings, unique in the document, used consistently in FRBRthis (with '
         '!component) and absent from FRBRuri of work/expression/manifestation, title alias = heading text or Untitled, every eId inside '
-        'starts with the attachment\'s own att_<n> id. non-trivial = document with >= 2 attachments; distinct by input.')
+        'starts with the attachment\'s own att_<n> id; a third of the documents are converted a second time on a parser object that has just failed inside an attachment. non-trivial = document with >= 2 attachments; distinct by input.')
 TRUSTED_BASE = [
     'Coq 8.16.1 kernel; no axioms',
     'hand models XmlGen.v / Post.v tied to xml.py by the e2e stage; cobalt\'s empty_meta tabulated per FRBR URI (gen_tables_libs.py)',
@@ -40,13 +40,22 @@ def att_text(rng, root):
     t = '\n'.join(gen.expand_breaks(l) for l in out) + '\n'
     return gen.mutate(rng, t, 1) if rng.random() < 0.15 else t
 
+# conversions that fail while an attachment's content is being turned into XML (invalid attribute name, character XML cannot hold):
+# run first on the same parser object for part of the cases; the document converted next must still get its own component names
+FAILING = ['x\nSCHEDULE First\n  y\n  ANNEXURE An annex\n    P{a=b c} z\n', 'x\nAPPENDIX\n  P{1a b} z\n',
+           'x\nATTACHMENT h\n  ANNEXURE\n    SCHEDULE\n      bad \x01 char\n']
+
 def _oracle(args):
-    uri, root, prefix, text = args
+    uri, root, prefix, text = args[:4]
     from bluebell.parser import AkomaNtosoParser
     from cobalt import FrbrUri
     try:
         f = FrbrUri.parse(uri)
-        xml = AkomaNtosoParser(f, prefix).parse_to_xml(text, root)
+        p = AkomaNtosoParser(f, prefix)
+        for h in (args[4] if len(args) > 4 else ()):
+            try: p.parse_to_xml(h, 'act')
+            except Exception: pass
+        xml = p.parse_to_xml(text, root)
     except Exception as e:
         return ('raised', impl.exc_kind(e), 0)
     ns = '{%s}' % xmlsx.NS
@@ -109,11 +118,13 @@ def search(ctx, budget):
     for _ in range(ctx.n(500, 30000) * (budget - 1)):
         root = ctx.rng.choice(gen.ROOTS7)
         cs.append((ctx.rng.choice(stages.URIS), root, '', att_text(ctx.rng, root)))
+    # a third of the documents again, on a parser object that has just failed inside an attachment
+    cs += [c[:4] + ([ctx.rng.choice(FAILING) for _ in range(ctx.rng.randint(1, 2))],) for c in cs[::3]]
     res = impl.pmap(_oracle, cs, chunk=8)
     for c, r in zip(cs, res):
-        ctx.evaluations += 1; ctx.count('oracle_' + r[0])
+        ctx.evaluations += 1; ctx.count('oracle_' + r[0] + ('_after_failed_conversion' if len(c) > 4 else ''))
         if r[0] == 'bad':
-            ctx.failures.append(({'stage': 'e2e', 'uri': c[0], 'root': c[1], 'prefix': c[2], 'text': c[3]}, r[1]))
+            ctx.failures.append((dict({'stage': 'e2e', 'uri': c[0], 'root': c[1], 'prefix': c[2], 'text': c[3]}, **({'history': c[4]} if len(c) > 4 else {})), r[1]))
         elif r[0] == 'ok' and r[2] >= 2:
             ctx.nontrivial((c[0], c[1], c[3]))
     ctx.sample({'uri': cs[0][0], 'root': cs[0][1], 'text': cs[0][3]})
@@ -130,7 +141,7 @@ def replay(obj):
     if not case:
         print('nothing to replay:', obj.get('broken_obligations')); return 1
     ok = stages.replay_stage(case)
-    r = _oracle((case['uri'], case['root'], case['prefix'], case['text'])); print('oracle:', r)
+    r = _oracle((case['uri'], case['root'], case['prefix'], case['text']) + ((case['history'],) if case.get('history') else ())); print('oracle:', r)
     return 1 if (r[0] == 'bad' or ok is False) else 0
 
 LEVEL_TEXT = ('Proof over the Gallina model of the generator: for every state, an attachment\'s component is <parent component>/<keyword>_<n> with n '
